@@ -1,4 +1,4 @@
-from ast import Attribute, Subscript, Load, NodeVisitor
+from ast import Attribute, Subscript, Load, NodeVisitor, Name as AstName
 
 from .compat import PY2
 from .scope import FuncScope, Flow, SourceScope, ClassScope
@@ -118,8 +118,11 @@ class extract_visitor(NodeVisitor):
 
         body_start = self.make_flow('for', [cur])
         for nn, _idx in get_indexes_for_target(node.target, [], []):
+            if not isinstance(nn, AstName):
+                continue
             name = nn  # type: ast.Name # type: ignore[assignment]
             body_start.add_name(AssignedName(name.id, np(node.body[0]), np(name), node.iter))
+        self.visit_in_flow(node.target, body_start)
         body = self.visit_in_flow(node.body, body_start)
         body_start.loop(body)
 
@@ -275,9 +278,12 @@ class extract_visitor(NodeVisitor):
             pp = p
             p = self.make_flow('comp', [p])
             for nn, _idx in get_indexes_for_target(g.target, [], []):
+                if not isinstance(nn, AstName):
+                    continue
                 name = nn  # type: ast.Name # type: ignore[assignment]
                 name.flow = pp  # type: ignore[attr-defined]
                 p.add_name(AssignedName(name.id, np(node), np(name), g.iter))
+            self.visit_in_flow(g.target, p)
 
             if g.ifs:
                 for inode in g.ifs:
@@ -306,6 +312,8 @@ class extract_visitor(NodeVisitor):
         for it in items:
             if it.optional_vars:
                 for nn, _idx in get_indexes_for_target(it.optional_vars, [], []):
+                    if not isinstance(nn, AstName):
+                        continue
                     name = nn  # type: ast.Name # type: ignore[assignment]
                     self.flow.add_name(AssignedName(name.id, get_expr_end(it.context_expr), np(name), node))
 
